@@ -81,6 +81,8 @@ structure Prims where
   toTs : Val → PyM (Int × Int)
   /-- startsWith / endsWith / contains / matches on two strings -/
   strPred : Nat → List Nat → List Nat → PyM Bool
+  /-- payload of a timestamp / duration accessor (`getFullYear`, `getHours`, …; optional time zone argument) -/
+  getter : Nat → Val → Option (List Nat) → PyM Int
 
 /-- the wrapper class whose native base class this is -/
 def Cls.wrapperOfNative : Cls → Option Cls
@@ -240,9 +242,12 @@ structure WrapSpec where
   logical : Bool
   /-- `map`/`filter` build `ListType(…)` in both runners; list and map literals build `ListType`/`MapType` -/
   listMacro : Bool
+  /-- every timestamp / duration accessor hands back `IntType(…)`: `function_getX` wraps, or passes on the result of
+  `TimestampType.getX` / `DurationType.getX` which both wrap on every path -/
+  accessors : Bool
   deriving DecidableEq, Repr
 
-def wrapSpec : WrapSpec := ⟨true, true, true, false, true, true, true, true, true, true⟩
+def wrapSpec : WrapSpec := ⟨true, true, true, false, true, true, true, true, true, true, true⟩
 
 inductive Runner where | I | C deriving DecidableEq, Repr
 
@@ -295,6 +300,8 @@ inductive TExpr where
   | typeOf (e : TExpr)
   | size (e : TExpr)
   | strPred (p : Nat) (a b : TExpr)
+  /-- `e.getX()` / `e.getX(tz)` on a timestamp or a duration -/
+  | getter (k : Nat) (e : TExpr) (tz : Option (List Nat))
   /-- `has(m.f)` where `m` evaluates to a map: is the string `f` a key -/
   | has (m : TExpr) (f : List Nat)
   /-- `l.all(x, body)`, `l.exists(x, body)`, `l.exists_one(x, body)` with the body instantiated per element -/
@@ -387,6 +394,11 @@ def evalT (c : Ctx) : TExpr → PyM Val
       match (← evalT c a), (← evalT c b) with
       | .str s, .str t => (c.P.strPred p s t).map (mkBool c.W.strPred)
       | _, _ => .error .typeError
+  | .getter k e tz => do
+      match (← evalT c e) with
+      | .ts us off => (c.P.getter k (.ts us off) tz).map (fun i => if c.W.accessors then .int i else .nint i)
+      | .dur us => (c.P.getter k (.dur us) tz).map (fun i => if c.W.accessors then .int i else .nint i)
+      | _ => .error .typeError
   | .has m f => do
       match (← evalT c m) with
       | .map kvs => .ok (mkBool c.hasWrapped (kvs.any (fun kv => kv.1 == Key.str f)))
@@ -459,6 +471,7 @@ def typeOfE : TExpr → Option Cls
   | .typeOf e => do let _ ← typeOfE e; some .type
   | .size e => do let x ← typeOfE e; if x = .str ∨ x = .bytes ∨ x = .list ∨ x = .map then some .int else none
   | .strPred _ a b => do let x ← typeOfE a; let y ← typeOfE b; if x = .str ∧ y = .str then some .bool else none
+  | .getter _ e _ => do let x ← typeOfE e; if x = .ts ∨ x = .dur then some .int else none
   | .has m _ => do let x ← typeOfE m; if x = .map then some .bool else none
   | .macroBool _ bodies => if allBool bodies then some .bool else none
   | .macroList isFilter _ bodies =>
@@ -476,7 +489,7 @@ mutual
 /-- does the expression contain `has()` -/
 def usesHas : TExpr → Bool
   | .lit _ => false
-  | .neg e | .not e | .conv _ e | .typeOf e | .size e => usesHas e
+  | .neg e | .not e | .conv _ e | .typeOf e | .size e | .getter _ e _ => usesHas e
   | .bin _ a b | .rel _ a b | .isIn a b | .and a b | .or a b | .strPred _ a b => usesHas a || usesHas b
   | .cond g a b => usesHas g || usesHas a || usesHas b
   | .has _ _ => true
